@@ -1013,6 +1013,14 @@ def run(ctx):
         for variant in ("Reactive", "Thread"):
             for name, progs in MULTI:
                 run_scenario(ctx, lin, name, variant, progs, 2, 25 if quick else 300, 5 if quick else 60)
+        if not getattr(ctx, "proof_ok", True) and not ctx.failures:
+            # an obligation on the regenerated lock summary no longer checks: search the pair scenarios much deeper for a
+            # schedule on which the real LDM misbehaves, so that the violation comes with a concrete replay
+            for variant in ("Reactive", "Thread"):
+                for name, progs in pair_plan() + MULTI:
+                    if ctx.failures:
+                        break
+                    run_scenario(ctx, lin, name, variant, progs, 2, 160, 40)
         n_rand = 25 if quick else 200
         for i in range(n_rand):
             progs = random_programs(ctx.rng)
